@@ -74,6 +74,13 @@ RULE = ("correspondence: dense operator matrices (dyadic unitary incl. Hadamard/
         "real module (tiny networks) run with recording operators, every data-consistency evaluation compared with autograd")
 
 DT = torch.float64
+# coil counts: everything up to 8, then around the multiples of 8 and beyond 32 (chunked / vectorised coil loops)
+COIL_LADDER = [1, 2, 3, 4, 5, 6, 7, 8, 9, 12, 16, 17, 20, 33]
+
+
+def _set_mode(blk, mode: str):
+    """`nn.Module.training` of the block under test: the engines call the blocks in train AND in eval mode"""
+    return blk.eval() if mode == "eval" else blk.train()
 
 
 # ====================================================================================================
@@ -152,11 +159,15 @@ _HW = [(1, 1), (1, 2), (2, 1), (1, 3), (2, 2), (1, 4), (2, 3), (2, 4), (4, 2), (
 class Prob:
     """one tiny dense problem, both as protocol groups and as tensors for the real blocks"""
 
-    def __init__(self, rng, max_n=16, coils=(1, 2, 3)):
+    def __init__(self, rng, max_n=16, coils=(1, 2, 3), ladder=0.0):
+        self.mode = None
+        if rng.random() < ladder:            # many coils on a tiny image (1-4 pixels)
+            max_n, coils = min(max_n, 4), COIL_LADDER
         hw = [s for s in _HW if s[0] * s[1] <= max_n]
         self.h, self.w = rng.choice(hw)
         self.n = self.h * self.w
         self.c = rng.choice(coils)
+        self.nn_mode = rng.choice(["train", "eval"])
         r = rng.random()
         if r < 0.6:
             self.mode = "unitary"
@@ -237,7 +248,7 @@ def correspondence(ctx: Ctx):
     rng = ctx.rng
     # ---- MRILogLikelihood.forward (exact)
     for i in range(ctx.budget(260, 2500)):
-        p = Prob(rng)
+        p = Prob(rng, ladder=0.3)
         fop, bop = p.ops()
         x = _gauss(rng, (p.n,), -4, 4, 0.1)
         y = _gauss(rng, (p.c, p.n), -4, 4, 0.1)
@@ -272,7 +283,7 @@ def correspondence(ctx: Ctx):
                 ksp = p.kspace(y)
                 consistent = False
         yg = [int(v) for v in ksp.reshape(-1).tolist()]
-        ll = MRILogLikelihood(fop, bop)
+        ll = _set_mode(MRILogLikelihood(fop, bop), p.nn_mode)
         S, m = p.sens(), p.mask_t()
 
         def impl(ll=ll, img=img, ksp=ksp, S=S, m=m, scaling=scaling):
@@ -280,14 +291,14 @@ def correspondence(ctx: Ctx):
             return _frac_answer(out.reshape(-1).tolist())
 
         bucket = f"loglik/{p.mode}/mask={p.mask_kind}" + (f"/malformed={malformed}" if malformed else "") + \
-                 ("/consistent" if consistent else "")
+                 ("/consistent" if consistent else "") + f"/{p.nn_mode}" + ("/coils>8" if p.c > 8 else "")
         yield {"line": line("loglik", [p.n, p.c, cy, xc], *p.groups(), xg, yg, [sn, sd]), "impl": _guard(impl),
                "nontrivial": p.n >= 2, "bucket": bucket}
     # ---- ConjGrad._A_star_op / _A_star_A_op / B_op (exact)
     for i in range(ctx.budget(150, 1500)):
-        p = Prob(rng)
+        p = Prob(rng, ladder=0.3)
         fop, bop = p.ops()
-        cgm = ConjGrad(fop, bop)
+        cgm = _set_mode(ConjGrad(fop, bop), p.nn_mode)
         S, m = p.sens(), p.mask_t()
         which = rng.choice(["astar", "astara", "bop"])
         if which == "astar":
@@ -295,7 +306,7 @@ def correspondence(ctx: Ctx):
             ksp = p.kspace(y)
             yield {"line": line("astar", [p.n, p.c], *p.groups(), _cints(y)),
                    "impl": _guard(lambda cgm=cgm, ksp=ksp, S=S, m=m: _frac_answer(cgm._A_star_op(ksp, S, m).reshape(-1).tolist())),
-                   "nontrivial": p.n >= 2, "bucket": f"astar/{p.mode}/mask={p.mask_kind}"}
+                   "nontrivial": p.n >= 2, "bucket": f"astar/{p.mode}/mask={p.mask_kind}/{p.nn_mode}" + ("/coils>8" if p.c > 8 else "")}
         elif which == "astara":
             x = _gauss(rng, (p.n,), -4, 4, 0.1)
             img = p.image(x)
@@ -306,7 +317,7 @@ def correspondence(ctx: Ctx):
                 xg = [int(v) for v in img.reshape(-1).tolist()]
             yield {"line": line("astara", [p.n, p.c, xc], *p.groups(), xg),
                    "impl": _guard(lambda cgm=cgm, img=img, S=S, m=m: _frac_answer(cgm._A_star_A_op(img, S, m).reshape(-1).tolist())),
-                   "nontrivial": p.n >= 2, "bucket": f"astara/{p.mode}/mask={p.mask_kind}" + ("/malformed=complex3" if xc == 3 else "")}
+                   "nontrivial": p.n >= 2, "bucket": f"astara/{p.mode}/mask={p.mask_kind}/{p.nn_mode}" + ("/malformed=complex3" if xc == 3 else "") + ("/coils>8" if p.c > 8 else "")}
         else:
             x = _gauss(rng, (p.n,), -4, 4, 0.1)
             img = p.image(x)
@@ -314,16 +325,16 @@ def correspondence(ctx: Ctx):
             lam = torch.tensor([ln / ld], dtype=DT)
             yield {"line": line("bop", [p.n, p.c], *p.groups(), _cints(x), [ln, ld]),
                    "impl": _guard(lambda cgm=cgm, img=img, S=S, m=m, lam=lam: _frac_answer(cgm.B_op(img, S, m, lam).reshape(-1).tolist())),
-                   "nontrivial": p.n >= 2, "bucket": f"bop/{p.mode}/mask={p.mask_kind}"}
+                   "nontrivial": p.n >= 2, "bucket": f"bop/{p.mode}/mask={p.mask_kind}/{p.nn_mode}" + ("/coils>8" if p.c > 8 else "")}
 
     # ---- phase 3: call histories on ONE persistent instance of each block (exact).  The model is a pure function of the
     #      current arguments, so every call of the history must answer like a first call.  The k-space / mask / map tensor
     #      OBJECTS are kept across the calls: re-used untouched with another mask or scaling, refilled in place, replaced
     #      by an equal copy.  (`core.correspond` runs the thunks in this order.)
     for i in range(ctx.budget(30, 300)):
-        p = Prob(rng)
+        p = Prob(rng, ladder=0.25)
         fop, bop = p.ops()
-        ll, cgm = MRILogLikelihood(fop, bop), ConjGrad(fop, bop)
+        ll, cgm = _set_mode(MRILogLikelihood(fop, bop), p.nn_mode), _set_mode(ConjGrad(fop, bop), p.nn_mode)
         st = {"x": _gauss(rng, (p.n,), -4, 4, 0.1), "y": _gauss(rng, (p.c, p.n), -4, 4, 0.1), "mask": list(p.mask), "s": (1, 1)}
         T_ = {"ksp": p.kspace(st["y"]), "S": p.sens(), "m": p.mask_t()}
         m_shape, m_dtype = tuple(T_["m"].shape), T_["m"].dtype
@@ -380,7 +391,7 @@ def correspondence(ctx: Ctx):
                     return _frac_answer(call().reshape(-1).tolist())
 
             yield {"line": ln_, "impl": _guard(impl), "key": ("hist", i, step, ln_), "nontrivial": p.n >= 2 and step >= 1,
-                   "bucket": f"history/{which}/step={min(step, 3)}{'+' if step > 3 else ''}/{how}"}
+                   "bucket": f"history/{which}/step={min(step, 3)}{'+' if step > 3 else ''}/{how}/{p.nn_mode}" + ("/coils>8" if p.c > 8 else "")}
 
     # ---- phase 2: the same physics inside the unrolled models / engines (exact, dense operators injected)
     import types as _types
@@ -397,12 +408,12 @@ def correspondence(ctx: Ctx):
 
     pair_classes = [JointICNet, IterDualNet, LPDNet, CrossDomainNetwork, MRIModelEngine]
     for i in range(ctx.budget(120, 1200)):
-        p = Prob(rng)
+        p = Prob(rng, ladder=0.25)
         p.mask_dtype = "bool"                       # the engines negate the mask with `~`
         fop, bop = p.ops()
         S, m = p.sens(), p.mask_t()
         me = _types.SimpleNamespace(forward_operator=fop, backward_operator=bop, _coil_dim=1, _spatial_dims=(2, 3), _complex_dim=-1,
-                                    compute_sensitivity_map=lambda s_: s_)
+                                    compute_sensitivity_map=lambda s_: s_, training=p.nn_mode == "train")
         which = rng.choice(["softdc-varnet", "softdc-rvn", "aop", "astar", "maskc", "harddc"])
         x = _gauss(rng, (p.n,), -4, 4, 0.1)
         k = _gauss(rng, (p.c, p.n), -4, 4, 0.1)
@@ -410,11 +421,12 @@ def correspondence(ctx: Ctx):
         img, ksp, ysp = p.image(x), p.kspace(k), p.kspace(y)
         if which.startswith("softdc"):
             if which == "softdc-varnet":
-                blk = EndToEndVarNetBlock(fop, bop, _ZeroImage()).double()
+                blk = _set_mode(EndToEndVarNetBlock(fop, bop, _ZeroImage()).double(), p.nn_mode)
                 run = lambda blk=blk, ksp=ksp, ysp=ysp, m=m, S=S: ksp - blk(ksp, ysp, m, S)          # lr = 1: k − out = M(k − y)
             else:
                 blk = RecurrentVarNetBlock(fop, bop, 2, 4, 1).double()
                 blk.regularizer = _ZeroRecurrent()
+                _set_mode(blk, p.nn_mode)
                 run = lambda blk=blk, ksp=ksp, ysp=ysp, m=m, S=S: ksp - blk(ksp, ysp, m, S, None)[0]
             ln_ = line("site", [p.n, p.c, 0], *p.groups(), _cints(k), _cints(y), [])
         elif which == "aop":
@@ -441,7 +453,7 @@ def correspondence(ctx: Ctx):
                 return _frac_answer(run().reshape(-1).tolist())
 
         yield {"line": ln_, "impl": _guard(impl), "nontrivial": p.n >= 2 and p.mask_kind == "random",
-               "bucket": f"site/{which}/mask={p.mask_kind}"}
+               "bucket": f"site/{which}/mask={p.mask_kind}/{p.nn_mode}" + ("/coils>8" if p.c > 8 else "")}
 
 
 _UPD = ["FR", "PRP", "DY", "BAN"]
@@ -464,7 +476,7 @@ def custom_correspondence(ctx: Ctx):
     rng = ctx.rng
     cases = []
     for i in range(ctx.budget(260, 2500)):
-        p = Prob(rng, max_n=8, coils=(1, 2) if rng.random() < 0.8 else (3,))
+        p = Prob(rng, max_n=8, coils=(1, 2) if rng.random() < 0.8 else (3,), ladder=0.2)
         fop, bop = p.ops()
         ut = rng.choice([0, 0, 1, 1, 2, 3])
         iters = rng.choice([0, 1, 1, 2, 2, 3]) if p.n <= 4 else rng.choice([0, 1, 2])
@@ -478,7 +490,7 @@ def custom_correspondence(ctx: Ctx):
         x0 = z if fwd else _gauss(rng, (p.n,), -3, 3, 0.3)
 
         def run(tol, ls=1.0, p=p, fop=fop, bop=bop, ut=ut, iters=iters, y=y, z=z, x0=x0, S=S, m=m, lam=lam, fwd=fwd):
-            blk = ConjGrad(fop, bop, num_iters=iters, tol=tol, bk_update_type=CGUpdateType(_UPD[ut]))
+            blk = _set_mode(ConjGrad(fop, bop, num_iters=iters, tol=tol, bk_update_type=CGUpdateType(_UPD[ut])), p.nn_mode)
             with torch.no_grad():
                 if fwd:
                     out = blk(p.kspace(y), S, m, p.image(z), lam * ls)
@@ -492,7 +504,8 @@ def custom_correspondence(ctx: Ctx):
             ln_ = line("cg", [p.n, p.c, iters, ut], *p.groups(), _cints(x0), _cints(y), _cints(z), [ln, ld], [tn, td])
         cases.append({"line": ln_, "run": run, "tol": tn / td,
                       "nontrivial": p.n >= 2 and iters >= 1 and p.mask_kind != "empty",
-                      "bucket": f"{'forward' if fwd else 'cg'}/{_UPD[ut]}/iters={iters}/mask={p.mask_kind}"})
+                      "bucket": f"{'forward' if fwd else 'cg'}/{_UPD[ut]}/iters={iters}/mask={p.mask_kind}/{p.nn_mode}" +
+                                ("/coils>8" if p.c > 8 else "")})
     # ---- batches: the stopping test couples the samples (batch mean); model = cgBatch + rational enclosure of the mean
     import copy
 
@@ -628,7 +641,7 @@ def _loglik_case(prm: dict):
     y = torch.randn(n_, c_, h_, w_, 2, generator=g)
     m = _make_mask(prm["mask"], (n_, c_, h_, w_), g)
     s = prm.get("scaling")
-    blk = MRILogLikelihood(fop, bop)
+    blk = _set_mode(MRILogLikelihood(fop, bop), prm.get("mode", "train"))
     zero = torch.tensor([0.0])
 
     def A(img):
@@ -729,7 +742,8 @@ def _cg_case(prm: dict):
     fails = []
     info = {}
     # (1) solution of the normal equations
-    full = ConjGrad(fop, bop, num_iters=prm.get("iters", 3 * npx + 10), tol=prm.get("tol", 1e-7), bk_update_type=CGUpdateType(upd))
+    mode = prm.get("mode", "train")
+    full = _set_mode(ConjGrad(fop, bop, num_iters=prm.get("iters", 3 * npx + 10), tol=prm.get("tol", 1e-7), bk_update_type=CGUpdateType(upd)), mode)
     with torch.no_grad():
         xs = full(y, S, m, z, lam)
     xsc = torch.view_as_complex(xs.contiguous()).reshape(n_, npx).to(torch.complex128)
@@ -773,7 +787,7 @@ def _cg_case(prm: dict):
         ref.append(its)
     worst_it = 0.0
     for k in range(1, kmax + 1):
-        blk = ConjGrad(fop, bop, num_iters=k, tol=0.0, bk_update_type=CGUpdateType(upd))
+        blk = _set_mode(ConjGrad(fop, bop, num_iters=k, tol=0.0, bk_update_type=CGUpdateType(upd)), mode)
         with torch.no_grad():
             xk = blk.cg(x0, y, S, m, lam, z)
         xkc = torch.view_as_complex(xk.contiguous()).reshape(n_, npx).to(torch.complex128)
@@ -797,7 +811,7 @@ def _cg_case(prm: dict):
         e_prev = ek
     info["worst_iterate_dev"] = worst_it
     # (3) the default block (num_iters=10, tol=1e-6) from its own start z
-    dflt = ConjGrad(fop, bop, bk_update_type=CGUpdateType(upd))
+    dflt = _set_mode(ConjGrad(fop, bop, bk_update_type=CGUpdateType(upd)), mode)
     with torch.no_grad():
         xd = dflt(y, S, m, z, lam)
     ez, ed = objective(z), objective(xd)
@@ -1057,6 +1071,10 @@ def _three_d_notes():
     return out
 
 
+def _cb(c: int) -> str:
+    return str(c) if c <= 4 else "5-8" if c <= 8 else "9-16" if c <= 16 else ">16"
+
+
 def oracle(ctx: Ctx, deep: bool = False):
     rng = ctx.rng
     big = deep or ctx.thorough
@@ -1065,7 +1083,11 @@ def oracle(ctx: Ctx, deep: bool = False):
     n_ll = 1500 if big else 150
     for i in range(n_ll):
         h_, w_ = rng.choice(sizes)
-        prm = {"op": "loglik", "shape": [rng.choice([1, 1, 2, 3]), rng.choice([1, 2, 3, 4]), h_, w_],
+        coils = rng.choice([1, 2, 3, 4])
+        if i % 3 == 0:                              # coil-count ladder on tiny images
+            h_, w_ = rng.choice([(1, 2), (2, 2), (2, 3), (3, 3)])
+            coils = COIL_LADDER[(i // 3 + ctx.seed) % len(COIL_LADDER)]
+        prm = {"op": "loglik", "shape": [rng.choice([1, 1, 2, 3]), coils, h_, w_], "mode": "eval" if (i // 3) % 2 == 0 else "train",
                "seed": rng.randrange(2 ** 31), "centered": rng.random() < 0.5, "normalized": rng.random() < 0.75,
                "mask": rng.choice(["empty", "full", "random", "random", "columns", "percoil"]),
                "scaling": rng.choice([None, None, 0.5, 3.0, 0.01, "per-sample"]), "sens_scale": rng.choice([1.0, 1.0, 0.2, 5.0]),
@@ -1079,7 +1101,7 @@ def oracle(ctx: Ctx, deep: bool = False):
         ctx.count(("ll", tuple(prm["shape"]), prm["seed"]), h_ * w_ >= 2 and prm["mask"] != "empty",
                   sample={"op": "oracle/loglik", **{k: prm[k] for k in ("shape", "centered", "normalized", "mask")}, **info},
                   bucket=f"oracle/loglik/{'centred' if prm['centered'] else 'uncentred'}/"
-                         f"{'normalised' if prm['normalized'] else 'unnormalised'}/mask={prm['mask']}")
+                         f"{'normalised' if prm['normalized'] else 'unnormalised'}/mask={prm['mask']}/{prm['mode']}/coils={_cb(coils)}")
         for key, what in fails:
             yield Violation(key, what, {**prm, "observed": info})
     # ---- ConjGrad vs dense solve
@@ -1088,7 +1110,12 @@ def oracle(ctx: Ctx, deep: bool = False):
     for i in range(n_cg):
         h_, w_ = rng.choice(cg_sizes)
         lam = round(math.exp(rng.uniform(math.log(0.05), math.log(10.0))), 4)
-        prm = {"op": "cg", "shape": [rng.choice([1, 1, 2]), rng.choice([1, 2, 3]), h_, w_], "seed": rng.randrange(2 ** 31),
+        coils = rng.choice([1, 2, 3])
+        if i % 3 == 0:
+            h_, w_ = rng.choice([(1, 2), (2, 2), (2, 3)])
+            coils = COIL_LADDER[(i // 3 + ctx.seed) % len(COIL_LADDER)]
+        prm = {"op": "cg", "shape": [rng.choice([1, 1, 2]), coils, h_, w_], "seed": rng.randrange(2 ** 31),
+               "mode": "eval" if (i // 3) % 2 == 0 else "train",
                "centered": rng.random() < 0.5, "mask": rng.choice(["empty", "full", "random", "random", "columns", "percoil"]),
                "lam": min(max(lam, 0.05), 10.0), "update": "FR" if i % 2 == 0 else "PRP",
                "sens_scale": rng.choice([1.0, 1.0, 0.3, 2.0]), "normalized": rng.random() < 0.8}
@@ -1100,7 +1127,7 @@ def oracle(ctx: Ctx, deep: bool = False):
                   sample={"op": "oracle/cg", **{k: prm[k] for k in ("shape", "centered", "mask", "lam", "update")}, **info},
                   bucket=f"oracle/cg/{prm['update']}/{'centred' if prm['centered'] else 'uncentred'}/"
                          f"{'normalised' if prm['normalized'] else 'unnormalised'}/mask={prm['mask']}/"
-                         f"lam={'<0.5' if prm['lam'] < 0.5 else '<3' if prm['lam'] < 3 else '>=3'}")
+                         f"lam={'<0.5' if prm['lam'] < 0.5 else '<3' if prm['lam'] < 3 else '>=3'}/{prm['mode']}/coils={_cb(coils)}")
         for key, what in fails:
             yield Violation(key, what, {**prm, "observed": info})
 
@@ -1153,7 +1180,12 @@ def oracle(ctx: Ctx, deep: bool = False):
     for i, script in enumerate(ll_scripts):
         for dt in ("float32", "float64"):
             h_, w_ = rng.choice([(2, 3), (4, 4), (5, 6), (3, 8)])
-            prm = {"op": "hist-loglik", "shape": [rng.choice([1, 2, 3]), rng.choice([1, 2, 3]), h_, w_], "seed": rng.randrange(2 ** 31),
+            coils = rng.choice([1, 2, 3])
+            if i % 2 == 1:
+                h_, w_ = rng.choice([(2, 2), (2, 3)])
+                coils = rng.choice(COIL_LADDER)
+            prm = {"op": "hist-loglik", "shape": [rng.choice([1, 2, 3]), coils, h_, w_], "seed": rng.randrange(2 ** 31),
+                   "mode": rng.choice(["train", "eval"]),
                    "centered": rng.random() < 0.5, "normalized": rng.random() < 0.75, "dtype": dt, "coilmask": rng.random() < 0.25,
                    "script": script}
             try:
@@ -1168,7 +1200,8 @@ def oracle(ctx: Ctx, deep: bool = False):
     for i, script in enumerate(cg_scripts):
         dt = "float32" if i % 2 == 0 else "float64"
         h_, w_ = rng.choice([(2, 2), (2, 3), (3, 4)])
-        prm = {"op": "hist-cg", "shape": [rng.choice([1, 2]), rng.choice([1, 2, 3]), h_, w_], "seed": rng.randrange(2 ** 31),
+        prm = {"op": "hist-cg", "shape": [rng.choice([1, 2]), rng.choice([1, 2, 3] if i % 2 == 0 else COIL_LADDER), h_, w_],
+               "seed": rng.randrange(2 ** 31), "mode": rng.choice(["train", "eval"]),
                "centered": rng.random() < 0.5, "dtype": dt, "update": "FR" if (i // 2) % 2 == 0 else "PRP", "script": script}
         try:
             fails, info = c19_hist.cg_history(prm)
@@ -1188,14 +1221,17 @@ def oracle(ctx: Ctx, deep: bool = False):
         seed = rng.randrange(2 ** 31)
         centered = rng.random() < 0.5
         mk = rng.choice(["random", "random", "full", "empty"])
+        # default coil counts of the checks (2-3) in the even rounds, one rung of the coil ladder in the odd ones; both modes
+        coils = None if r % 2 == 0 else COIL_LADDER[(r // 2 + 3 * ctx.seed + 8) % len(COIL_LADDER)]
+        mode = "eval" if (r // 2) % 2 == 0 else "train"
         for name, fn in c19_sites.SITE_CHECKS:
-            prm = {"op": "site", "site": name, "seed": seed, "centered": centered, "mask": mk}
+            prm = {"op": "site", "site": name, "seed": seed, "centered": centered, "mask": mk, "coils": coils, "mode": mode}
             try:
-                n, fails = fn(seed, centered, mk)
+                n, fails = c19_sites.run_site(name, seed, centered, mk, coils, mode)
             except Exception as e:  # noqa: BLE001
                 n, fails = 0, [(f"site-{name}-raises", f"{name}: {err_name(e)}: {e}"[:300])]
             counts[name] = counts.get(name, 0) + n
-            ctx.count(("site", name, seed), mk != "empty", bucket=f"oracle/site/{name}/mask={mk}")
+            ctx.count(("site", name, seed), mk != "empty", bucket=f"oracle/site/{name}/mask={mk}/{mode}/coils={'default' if coils is None else _cb(coils)}")
             for key, what in fails:
                 yield Violation(key, what, prm)
     # ---- phase 3: the same sites on PERSISTENT module instances over a call history (argument tensors refilled in place,
@@ -1210,9 +1246,11 @@ def oracle(ctx: Ctx, deep: bool = False):
             seed = rng.randrange(2 ** 31)
             centered = rng.random() < 0.5
             kinds = [rng.choice(["random", "random", "random", "full", "empty"]) for _ in script]
-            prm = {"op": "site-hist", "site": name, "seed": seed, "centered": centered, "script": script, "mask_kinds": kinds}
+            coils, mode = rng.choice([None, None] + COIL_LADDER), rng.choice(["train", "eval"])
+            prm = {"op": "site-hist", "site": name, "seed": seed, "centered": centered, "script": script, "mask_kinds": kinds,
+                   "coils": coils, "mode": mode}
             try:
-                n, fails, _k = c19_sites.run_site_history(name, seed, centered, script, kinds)
+                n, fails, _k = c19_sites.run_site_history(name, seed, centered, script, kinds, coils, mode)
             except Exception as e:  # noqa: BLE001
                 n, fails = 0, [(f"site-{name}-raises", f"{name} (call history {script}): {err_name(e)}: {e}"[:300])]
             hist_counts[name] = hist_counts.get(name, 0) + n
@@ -1249,8 +1287,7 @@ def replay(rep: dict) -> bool:
             return bool(_cg_batch_case(prm)[0])
         if rep.get("op") == "site":
             from props import c19_sites
-            fn = dict(c19_sites.SITE_CHECKS)[rep["site"]]
-            return bool(fn(rep["seed"], rep["centered"], rep["mask"])[1])
+            return bool(c19_sites.run_site(rep["site"], rep["seed"], rep["centered"], rep["mask"], rep.get("coils"), rep.get("mode", "train"))[1])
         if rep.get("op") == "hist-loglik":
             from props import c19_hist
             return bool(c19_hist.loglik_history(prm)[0])
@@ -1259,7 +1296,8 @@ def replay(rep: dict) -> bool:
             return bool(c19_hist.cg_history(prm)[0])
         if rep.get("op") == "site-hist":
             from props import c19_sites
-            return bool(c19_sites.run_site_history(rep["site"], rep["seed"], rep["centered"], rep["script"], rep.get("mask_kinds"))[1])
+            return bool(c19_sites.run_site_history(rep["site"], rep["seed"], rep["centered"], rep["script"], rep.get("mask_kinds"),
+                                                   rep.get("coils"), rep.get("mode", "train"))[1])
         if rep.get("op") == "cg3d":
             return any(isinstance(v, Violation) for v in _three_d_notes())
     except Exception:  # noqa: BLE001
